@@ -478,7 +478,7 @@ CORPUS = [
     # minimised past failures of the rewriters (false alarms repaired) and of grass, run first
     ("scss", "a{b:c}\r\nd{e:f}"),
     ("scss", "$a_b: 1; z{y: $a-b}"),
-    # C18-F1 (known): the column of a loud comment is taken from codemap, which knows only LF and counts a BOM
+    # C18-F1 (fixed by e81c3e6; must pass now): the column of a loud comment was taken from codemap (LF only, BOM counted)
     ("scss", "a{b:c}\n  /* x\n      y */\n"),
     ("scss", "  /*\n    a */"),
     # false alarms of earlier versions of the rewriters (kept so that they stay repaired):
@@ -668,16 +668,18 @@ def run(tier, seed):
             got = re.findall(r"/\*.*?\*/", o[1] or "", re.S)
             got = got[-1] if got else None
             ck.count((rel, src), af != sp or any(inds))
-            ck.hist(f"comment-column:{style}{'+bom' if bom else ''}:{'as-found=spec' if rendered(af) == rendered(sp) else 'as-found!=spec'}")
-            if got != rendered(af):
+            ck.hist(f"comment-column:{style}{'+bom' if bom else ''}:{'old=now' if rendered(af) == rendered(sp) else 'old!=now'}")
+            # tie: the model of write_comment as it is now (`asFound = false`)
+            if got != rendered(sp):
                 ck.cov["model_disagreements"] += 1
                 if len(ck.disagreements) < 10:
-                    ck.disagreements.append({"relation": rel, "source": src, "model_as_found": rendered(af), "grass": got})
-            if got != rendered(sp):
-                # the property's reading (column in tokens of the comment's own line): violated
-                tags = ["loud-comment-column"] if got == rendered(af) else []
-                ck.fail.append({"relation": rel, "source": src, "syntax": "scss", "observed": got, "expected_by_property": rendered(sp),
-                                "model_as_found": rendered(af), "tags_precomputed": tags, "tags": []})
+                    ck.disagreements.append({"relation": rel, "source": src, "model_now": rendered(sp), "model_as_found": rendered(af), "grass": got})
+            # direct: the comment must come out as from the LF / no-BOM spelling of the same text
+            base_pre = nl_subst("lf", pre.replace("\ufeff", ""))
+            n_lf = len(base_pre) - (base_pre.rfind("\n") + 1)
+            if got != rendered(n_lf):
+                ck.fail.append({"relation": rel, "source": src, "syntax": "scss", "observed": got, "expected_by_property": rendered(n_lf),
+                                "model_now": rendered(sp), "tags": []})
             continue
         if rel.startswith("norm:"):
             n1, n2 = extra
@@ -779,14 +781,8 @@ def _lstrip_lines(css):
 
 
 def classify(f):
-    """class tags of known findings, computed from the failing pair"""
-    rel = f["relation"]
-    bo, vo = f.get("base_observed"), f.get("variant_observed")
-    if rel in ("rewrite:nl-cr", "rewrite:nl-ff", "rewrite:bom") and bo and vo and bo[0] == "ok" and vo[0] == "ok":
-        # C18-F1: only the indentation of the continuation lines of a multi-line loud comment differs
-        multi = re.search(r"/\*(?:(?!\*/).)*\n", bo[1] or "", re.S)
-        if multi and _lstrip_lines(bo[1]) == _lstrip_lines(vo[1]):
-            return ["loud-comment-column"]
+    """class tags of known findings, computed from the failing pair (none at present: C18-F1, the column of
+    a loud comment taken from codemap, was fixed in /repo by e81c3e6 — its inputs are regression cases in CORPUS)"""
     return []
 
 
